@@ -92,7 +92,7 @@ pub fn scan_oracle(out: &mut Out, lines: &[String], engine: &Engine, rules: &mut
             plain_block = true;
         }
     }
-    out.bump("non_ascii_url_scans");
+    out.bump(if q.url.is_ascii() { "rule_by_rule_scans" } else { "non_ascii_url_scans" });
     let desc = json!({"rules": lines, "url": q.url, "source": q.src, "type": q.ty, "engine": {"matched": v.matched, "exception": v.exception, "filter": v.filter},
         "scan": {"some_rule_matches": any, "plain_blocking_rule_matches": plain_block, "exception_matches": exception}});
     if !any && (v.matched || v.exception.is_some() || v.redirect.is_some()) {
@@ -147,6 +147,18 @@ pub fn run(seed: u64, n: usize, out: &mut Out) {
             lines.extend(sl);
             scenario_url = Some(su);
         }
+        // `||label.` (a host pattern ending in a dot) against hosts that merely contain the label's text inside a longer label:
+        // what the rule matches on its own must be what the engine finds (the rule sits under the token `label`)
+        let mut dot_urls: Vec<String> = vec![];
+        if r.pct(12) {
+            let w: &str = r.pick(&["tracker", "adserv", "pix"]);
+            lines.push(format!("{}||{}.{}", if r.pct(20) { "@@" } else { "" }, w, r.pick(&["", "$script", "$third-party"])));
+            if r.pct(30) {
+                lines.push(format!("||cdn.test/{}/", w));
+            }
+            dot_urls = vec![format!("https://ad{}.example.com/x.js", w), format!("https://ad{}.example.com/{}/x.js", w, w), format!("https://{}.example.com/x.js", w),
+                            format!("https://a.{}.example.com/x.js", w), format!("https://cdn.test/{}/x.js", w), format!("https://my{}.co/{}.js", w, w)];
+        }
         if r.pct(30) {
             // order must not matter for the verdict: shuffle
             for i in (1..lines.len()).rev() {
@@ -177,6 +189,12 @@ pub fn run(seed: u64, n: usize, out: &mut Out) {
             out.bump("engines_with_regex_churn");
         }
         let case = Case { lines: lines.clone(), optimize, tags };
+        for du in &dot_urls {
+            if let Some(q) = make_req(du, "https://shop.test/", "script") {
+                scan_oracle(out, &lines, &engine, &mut rules, &q);
+                emit(out, &case, &engine, &rules, &resources, &q, "chk");
+            }
+        }
         for _ in 0..4 {
             let (mut u, s, t) = if clustered { gen::cluster_url(&mut r, &lines) } else { gen::url_from(&mut r, &lines) };
             if let Some(su) = &scenario_url {
@@ -193,6 +211,8 @@ pub fn run(seed: u64, n: usize, out: &mut Out) {
                 continue;
             }
             if let Some(q) = make_req(&u, &s, &t) {
+                // the engine against the crate's own rule-by-rule scan (the model below re-derives every rule's answer itself)
+                scan_oracle(out, &lines, &engine, &mut rules, &q);
                 if churn {
                     let _ = engine.check_network_request(&q.req);
                     std::thread::sleep(std::time::Duration::from_micros(5));
